@@ -108,8 +108,17 @@ impl SwiftField for Field55B {
 
         // Check for party identifier on first line
         if !lines.is_empty() && lines[0].starts_with('/') {
-            // /1!a/34x at the longest
-            parse_max_length(lines[0], 37, "Field55B party_identifier")?;
+            // /1!a/34x or /34x, and something after the slash
+            if lines[0].len() < 2 {
+                return Err(ParseError::InvalidFormat {
+                    message: "Field55B party identifier is empty after '/'".to_string(),
+                });
+            }
+            parse_max_length(
+                lines[0],
+                super::field_utils::party_identifier_line_max(lines[0]),
+                "Field55B party_identifier",
+            )?;
             parse_swift_chars(lines[0], "Field55B party_identifier")?;
             party_identifier = Some(lines[0].to_string());
             line_idx = 1;
